@@ -468,13 +468,26 @@ pub struct FrameCase17 {
     /// out-of-range sample: (interleaved index, above?, distance beyond the limit: 0 => first illegal value, 1 => i32 extreme)
     pub bad_sample: Option<(usize, bool, u8)>,
     pub seed: u64,
+    /// inter-channel samples delivered to the buffer: None = a full block, Some(0) = an empty fill,
+    /// Some(usize::MAX) = the buffer is never filled, Some(k) = a short (valid) block of k samples
+    #[serde(default)]
+    pub fill: Option<usize>,
 }
 
 pub fn check_frame(c: &FrameCase17) -> Outcome {
     let mut out = Outcome::new(fnv(format!("{c:?}").as_bytes()));
     let num_valid = c.frame_number < (1usize << 31);
-    let must_err = !num_valid || c.bad_sample.is_some();
+    let delivered = match c.fill {
+        None => c.block,
+        Some(usize::MAX) => 0,
+        Some(k) => k.min(c.block),
+    };
+    let empty = delivered == 0;
+    let must_err = !num_valid || c.bad_sample.is_some() || empty;
     out.nontrivial = must_err;
+    if empty {
+        out.class("arg:empty-frame-buffer");
+    }
     if !num_valid {
         out.class("arg:frame-number>=2^31");
     }
@@ -485,8 +498,8 @@ pub fn check_frame(c: &FrameCase17) -> Outcome {
         out.class("skipped:setup-arguments-invalid");
         return out;
     };
-    let mut v = rnd_samples(c.block * c.channels, c.bps, c.seed);
-    if let Some((i, above, far)) = c.bad_sample {
+    let mut v = rnd_samples(delivered * c.channels, c.bps, c.seed);
+    if let (Some((i, above, far)), false) = (c.bad_sample, empty) {
         let i = i % v.len();
         v[i] = match (above, far) {
             (true, 0) => 1i32 << (c.bps - 1),
@@ -495,11 +508,11 @@ pub fn check_frame(c: &FrameCase17) -> Outcome {
             (false, _) => i32::MIN,
         };
     }
-    if fb.fill_interleaved(&v).is_err() {
-        out.viol("fill-rejects-valid", "fill_interleaved of exactly the capacity failed");
+    if c.fill != Some(usize::MAX) && fb.fill_interleaved(&v).is_err() {
+        out.viol("fill-rejects-valid", "fill_interleaved of at most the capacity failed");
         return out;
     }
-    let what = format!("encode_fixed_size_frame({} ch, {} bits, block {}, frame_number {}, bad sample {:?})", c.channels, c.bps, c.block, c.frame_number, c.bad_sample);
+    let what = format!("encode_fixed_size_frame({} ch, {} bits, block {}, delivered {:?}, frame_number {}, bad sample {:?})", c.channels, c.bps, c.block, c.fill, c.frame_number, c.bad_sample);
     match catch(|| flacenc::encode_fixed_size_frame(&vc, &fb, c.frame_number, &info)) {
         Err(p) => out.viol(format!("frame-{}", normalise(&p.sig())), format!("{what}: panicked: {} at {}", p.msg, p.loc)),
         Ok(Err(_)) => {
@@ -511,7 +524,7 @@ pub fn check_frame(c: &FrameCase17) -> Outcome {
         Ok(Ok(f)) => {
             out.class("result:ok");
             if must_err {
-                out.viol(if num_valid { "frame-accepts-invalid:sample" } else { "frame-accepts-invalid:frame-number" }, format!("{what}: returned Ok"));
+                out.viol(if empty { "frame-accepts-invalid:empty-frame-buffer" } else if num_valid { "frame-accepts-invalid:sample" } else { "frame-accepts-invalid:frame-number" }, format!("{what}: returned Ok"));
             } else {
                 // faithful: the header carries exactly this number
                 let fctx = refdec::FrameCtx { rate: Some(44100), bps: Some(c.bps as u32), channels: Some(c.channels), max_block: None };
@@ -519,7 +532,7 @@ pub fn check_frame(c: &FrameCase17) -> Outcome {
                     Ok(Ok(b)) => {
                         let mut viol = vec![];
                         match refdec::decode_frame(&b, 0, &fctx, c.frame_number as u64, &mut viol) {
-                            Ok((ft, _, _)) if ft.number == c.frame_number as u64 => {}
+                            Ok((ft, _, _)) if ft.number == c.frame_number as u64 && ft.block_size == delivered => {}
                             other => out.viol("frame-number-not-faithful", format!("{what}: header reads {:?}", other.map(|x| x.0.number))),
                         }
                     }
@@ -629,7 +642,15 @@ fn frame_grid() -> Vec<Case17> {
     let mut v = vec![];
     for n in frame_number_grid() {
         for (ch, bps) in [(1usize, 16usize), (2, 24), (8, 8)] {
-            v.push(Case17::Frame(FrameCase17 { channels: ch, bps, block: 64, frame_number: n, bad_sample: None, seed: 1 }));
+            v.push(Case17::Frame(FrameCase17 { channels: ch, bps, block: 64, frame_number: n, bad_sample: None, seed: 1, fill: None }));
+        }
+    }
+    // delivered sample counts: empty fill, never filled, short valid blocks, full
+    for (ch, bps) in [(1usize, 16usize), (2, 24), (8, 8)] {
+        for fill in [Some(0usize), Some(usize::MAX), Some(1), Some(2), Some(15), Some(16), Some(63), None] {
+            for block in [32usize, 64, 4096] {
+                v.push(Case17::Frame(FrameCase17 { channels: ch, bps, block, frame_number: 7, bad_sample: None, seed: 3, fill }));
+            }
         }
     }
     for bps in [8usize, 12, 16, 20, 24] {
@@ -637,7 +658,7 @@ fn frame_grid() -> Vec<Case17> {
             for i in [0usize, 1, 63, 64 * ch - 1, 17] {
                 for above in [false, true] {
                     for far in [0u8, 1] {
-                        v.push(Case17::Frame(FrameCase17 { channels: ch, bps, block: 64, frame_number: 3, bad_sample: Some((i, above, far)), seed: 2 }));
+                        v.push(Case17::Frame(FrameCase17 { channels: ch, bps, block: 64, frame_number: 3, bad_sample: Some((i, above, far)), seed: 2, fill: None }));
                     }
                 }
             }
@@ -691,7 +712,7 @@ pub fn run(ctx: &Ctx) {
     }, check);
     ctx.search("gen-frame", 16, per * 2, &|| {
         (1usize..=8, proptest::sample::select(vec![8usize, 12, 16, 20, 24]), 32usize..=500, prop_oneof![3 => 0usize..(1 << 31), 1 => (1usize << 31)..usize::MAX], proptest::option::weighted(0.6, (any::<usize>(), any::<bool>(), 0u8..2)), any::<u64>())
-            .prop_map(|(channels, bps, block, frame_number, bad_sample, seed)| Case17::Frame(FrameCase17 { channels, bps, block, frame_number, bad_sample, seed }))
+            .prop_map(|(channels, bps, block, frame_number, bad_sample, seed)| Case17::Frame(FrameCase17 { channels, bps, block, frame_number, bad_sample, seed, fill: None }))
     }, check);
     ctx.search("gen-stream", 8, per, &|| {
         let mis = prop_oneof![
